@@ -7,8 +7,8 @@ CASE_TYPE = "(list (aop * aobs))"
 VERDICT = "c18_verdict"
 EXPECTED = None
 SHARD = 40
-RULE = ("cases = sequences of 5-40 admin operations (add/delete route, blacklist entry, rewriter, aggregation, destination; valid, out-of-range "
-        "and unknown targets) on a real table. Before every operation the harness keeps the slices of the currently published configuration "
+RULE = ("cases = sequences of 5-40 admin operations (add/delete route, blacklist entry, rewriter, aggregation, destination; modRoute / modDest "
+        "with one to three options, some with a regex that does not compile; valid, out-of-range and unknown targets) on a real table. Before every operation the harness keeps the slices of the currently published configuration "
         "(accessor under the verif tag: the very headers a concurrent Dispatch iterates over); after every operation it re-reads all slices kept "
         "so far (white-box stand-in for 'a dispatcher that loaded the table before the change') and reports any whose contents changed, and "
         "compares the current view and the error/no-error result with the list model. non-trivial & distinct = distinct sequences containing a delete "
@@ -18,6 +18,12 @@ ASSUMPTIONS = ["atomic.Value Load/Store is atomic and a reader only touches what
 TRUSTED = ["hooks: table.VerifConfigSlices, route.VerifDests (build tag verif)"]
 
 KINDS = ["Black", "Rw", "Agg"]
+OPTS = ["prefix", "notPrefix", "sub", "notSub", "regex", "notRegex"]
+
+
+def upd_coq(opts):
+    valid = not any(opts.get(k) in ("(", "[z") for k in ("regex", "notRegex"))
+    return clist([ctuple(cnat(OPTS.index(k)), cbytes(v)) for k, v in sorted(opts.items())], "(nat * bytes)"), cbool(valid)
 
 
 def gen(rng, tier):
@@ -59,7 +65,7 @@ def gen(rng, tier):
                     rt[1] += 1
                 else:
                     ops.append({"op": "addDest", "key": "unknown%d" % uid, "id": "d%d" % uid})
-            else:
+            elif r < .94:
                 if routes and rng.random() < .9:
                     rt = rng.choice(routes)
                     i = rng.randrange(0, rt[1] + 2) if rng.random() < .3 else (rng.randrange(rt[1]) if rt[1] else 0)
@@ -68,15 +74,31 @@ def gen(rng, tier):
                         rt[1] -= 1
                 else:
                     ops.append({"op": "delDest", "key": "unknown%d" % uid, "idx": 0})
+            else:
+                # modRoute / modDest with one to three options; sometimes one of them is a regex that does not compile
+                opts = {}
+                for k in rng.sample(OPTS, rng.choice([1, 2, 2, 3])):
+                    if k in ("regex", "notRegex"):
+                        opts[k] = rng.choice(["^a\\.b", "x$", "^m%d" % uid, "(", "[z"])
+                    else:
+                        opts[k] = rng.choice(["a.", "web", "m%d" % uid, ""])
+                key = rng.choice(routes)[0] if routes and rng.random() < .9 else "unknown%d" % uid
+                if rng.random() < .5:
+                    ops.append({"op": "modRoute", "key": key, "opts": opts})
+                else:
+                    nd = dict((r0, n0) for r0, n0 in routes).get(key, 0)
+                    ops.append({"op": "modDest", "key": key, "idx": rng.randrange(0, nd + 2) if rng.random() < .3 else (rng.randrange(nd) if nd else 0),
+                                "opts": opts})
         cases.append({"ops": ops})
     return cases
 
 
 def view_coq(v):
     routes = clist([ctuple(cbytes(k), clist([cbytes(d) for d in v["dests"].get(k, [])], "bytes")) for k in v["routes"]], "(bytes * list bytes)")
-    return ("{| v_black := %s; v_rw := %s; v_aggs := %s; v_routes := %s |}"
+    filters = clist([ctuple(cbytes(f[0]), clist([cbytes(x) for x in f[1:]], "bytes")) for f in (v.get("filters") or [])], "(bytes * list bytes)")
+    return ("{| v_black := %s; v_rw := %s; v_aggs := %s; v_routes := %s; v_filters := %s |}"
             % (clist([cbytes(x) for x in v["black"] or []], "bytes"), clist([cbytes(x) for x in v["rw"] or []], "bytes"),
-               clist([cbytes(x) for x in v["aggs"] or []], "bytes"), routes))
+               clist([cbytes(x) for x in v["aggs"] or []], "bytes"), routes, filters))
 
 
 def op_coq(o):
@@ -89,6 +111,10 @@ def op_coq(o):
         return "AddDest %s %s" % (cbytes(o["key"]), cbytes(o["id"]))
     if k == "delDest":
         return "DelDest %s %s" % (cbytes(o["key"]), cnat(o.get("idx", 0)))
+    if k == "modRoute":
+        return "ModRoute %s %s %s" % ((cbytes(o["key"]),) + upd_coq(o["opts"]))
+    if k == "modDest":
+        return "ModDest %s %s %s %s" % ((cbytes(o["key"]), cnat(o.get("idx", 0))) + upd_coq(o["opts"]))
     if k.startswith("add"):
         return "Add%s %s" % (k[3:], cbytes(o["id"]))
     return "Del%s %s" % (k[3:], cnat(o.get("idx", 0)))
